@@ -295,6 +295,182 @@ pub fn many_rows(p: usize, cats: &[usize], ids: &[usize], k: usize, kb: usize, c
     rows
 }
 
+// ------------------------------------------------------------------------------------------------
+// extreme pass-through values and extreme category codes (extension "pass-through values")
+
+/// Size of the pass-through alphabet (per element type).
+pub const N_PT: usize = 14;
+
+/// The `i`-th letter of the pass-through alphabet of the backend's element type, as the f64 that the
+/// matrix really holds. f64: both zeros, values far below machine epsilon, the smallest subnormal (both
+/// signs), 1e-300, values that are subnormal / below epsilon only in f32, the largest ordinary
+/// magnitudes (both signs), 0.1+0.2 and one ordinary value. f32: the same roles with the f32 limits
+/// (1.4e-45 smallest subnormal, 1e-40 subnormal, 6e-8 < f32 epsilon, 3e38 largest ordinary magnitude);
+/// nothing overflows to inf or is flushed to zero by the conversion.
+pub fn pt_letter(is_f32: bool, i: usize) -> f64 {
+    if is_f32 {
+        let t: [f32; N_PT] = [0.0, -0.0, 7.3e-17, -2.2e-16, 1.4e-45, 1e-40, 6e-8, -1e-40, 3e38, -3e38, 0.1f32 + 0.2f32, -1.4e-45, f32::MIN_POSITIVE, 2.5];
+        t[i] as f64
+    } else {
+        let t: [f64; N_PT] = [0.0, -0.0, 7.3e-17, -2.2e-16, 5e-324, 1e-300, 6e-8, 1e-40, 1e300, 3e38, 0.1f64 + 0.2f64, -5e-324, -1e300, 2.5];
+        t[i]
+    }
+}
+
+/// Plan-time self-check: within each element type the letters are pairwise distinct as bit patterns,
+/// finite, exactly representable in the element type, and the roles are what the table says.
+pub fn pt_alphabet_ok() -> bool {
+    [false, true].iter().all(|&f| {
+        let v: Vec<f64> = (0..N_PT).map(|i| pt_letter(f, i)).collect();
+        let distinct = (0..N_PT).all(|i| (0..i).all(|j| v[i].to_bits() != v[j].to_bits()));
+        let exact = v.iter().all(|x| x.is_finite() && (!f || (*x as f32 as f64).to_bits() == x.to_bits()));
+        let kinds: Vec<&str> = v.iter().map(|x| pt_kind(f, *x)).collect();
+        distinct
+            && exact
+            && kinds[0] == "positive-zero"
+            && kinds[1] == "negative-zero"
+            && kinds[2] == "below-epsilon"
+            && kinds[3] == "below-epsilon"
+            && kinds[4] == "subnormal"
+            && kinds[8] == "huge"
+            && kinds[9] == "huge"
+            && kinds[10] == "ordinary"
+            && kinds[11] == "subnormal"
+            && kinds[13] == "ordinary"
+            && (!f || (kinds[5] == "subnormal" && kinds[6] == "below-epsilon" && kinds[7] == "subnormal"))
+    })
+}
+
+/// Kind of a pass-through value, relative to the element type (used for counters and to name the
+/// clause of a changed pass-through cell; decided from the input value only).
+pub fn pt_kind(is_f32: bool, v: f64) -> &'static str {
+    let (tiny, eps) = if is_f32 { (f32::MIN_POSITIVE as f64, f32::EPSILON as f64) } else { (f64::MIN_POSITIVE, f64::EPSILON) };
+    let a = v.abs();
+    if v == 0.0 {
+        if v.is_sign_negative() {
+            "negative-zero"
+        } else {
+            "positive-zero"
+        }
+    } else if a < tiny {
+        "subnormal"
+    } else if a <= eps {
+        "below-epsilon"
+    } else if a > 1e30 {
+        "huge"
+    } else {
+        "ordinary"
+    }
+}
+
+/// Does the matrix hold a pass-through value outside the ordinary alphabet (a zero, |v| < 1e-6 or
+/// |v| > 1e30)? Such layouts are an input class of their own (`-extreme-pass-through-values`); the
+/// ordinary plain alphabet has 1.5 <= |v| < 1000.
+pub fn has_extreme_pass_through(rows: &Rows, cats_sorted: &[usize]) -> bool {
+    rows.iter().any(|r| r.iter().enumerate().any(|(c, v)| !cats_sorted.contains(&c) && (v.abs() < 1e-6 || v.abs() > 1e30)))
+}
+
+/// Strides (row, column) of the letter assignment, selected by VERIF_SEED; the row stride is coprime
+/// to `N_PT`, so a column of >= 2 rows never repeats a letter in neighbouring rows.
+pub fn pt_strides(seed: u64) -> (usize, usize) {
+    ([1, 3, 5, 9, 11, 13][(seed % 6) as usize], [3, 1, 5][(seed % 3) as usize])
+}
+
+/// The matrix of a pass-through-value case: the layout matrix with every plain cell replaced by a
+/// letter of the pass-through alphabet. mode 0: cell (r, j-th plain column) holds letter
+/// (a + s1 r + s2 j) mod N_PT — over the N_PT rotations `a` every cell holds every letter once;
+/// mode 1: the whole j-th plain column holds letter (a + s2 j) mod N_PT.
+pub fn ptval_rows(is_f32: bool, p: usize, cats: &[usize], ks: &[usize], cs: usize, rs: usize, a: usize, mode: usize, seed: u64) -> Rows {
+    let mut rows = layout_rows(p, cats, ks, cs, rs, seed);
+    let (s1, s2) = pt_strides(seed);
+    let mut j = 0;
+    for c in 0..p {
+        if cats.contains(&c) {
+            continue;
+        }
+        for (r, row) in rows.iter_mut().enumerate() {
+            let i = if mode == 0 { a + s1 * r + s2 * j } else { a + s2 * j };
+            row[c] = pt_letter(is_f32, i % N_PT);
+        }
+        j += 1;
+    }
+    rows
+}
+
+/// Bit-exact digest of a matrix (keeps the sign of zero, unlike `digest_rows`).
+pub fn digest_rows_bits(rows: &Rows) -> u64 {
+    rows.iter().fold(rows.len() as u64, |h, r| r.iter().fold(mc::hash::mix(h, r.len() as u64), |h, x| mc::hash::mix(h, x.to_bits())))
+}
+
+/// Code sets (in first-appearance order) of a fitted column that holds BOTH legal extreme codes 0 and
+/// 65535: every arrangement of {0, 65535} (k = 2), of {0, 65535, f} for f in {1, 65534} (k = 3), of
+/// {0, 65535, 1, 65534} (k = 4) and of {0, 65535, 1, 65534, 300} (k = 5).
+pub fn n_extreme_code_sets(k: usize) -> usize {
+    match k {
+        2 => 2,
+        3 => 12,
+        4 => 24,
+        _ => 120,
+    }
+}
+
+pub fn extreme_code_set(k: usize, idx: usize) -> Vec<f64> {
+    let base: Vec<f64> = match k {
+        2 => vec![0.0, 65535.0],
+        3 => vec![0.0, 65535.0, if idx / 6 == 0 { 1.0 } else { 65534.0 }],
+        4 => vec![0.0, 65535.0, 1.0, 65534.0],
+        _ => vec![0.0, 65535.0, 1.0, 65534.0, 300.0],
+    };
+    nth_perm(k, idx % factorial(k)).into_iter().map(|i| base[i]).collect()
+}
+
+/// Values that are not category codes, invalid in different ways (all exactly representable in f32):
+/// fractional, negative integer, one past the u16 range, far past it, negative fractional, just above
+/// 65535, 2^32 (0 after a wrapping cast), -65535, 2^17-1 (65535 after a wrapping cast), fractional
+/// below 1.
+pub const INVALID_VALUES: [f64; 10] = [12.5, -4.0, 65536.0, 1e9, -0.5, 65535.5, 4294967296.0, -65535.0, 131071.0, 0.5];
+
+/// Kind of an invalid value (names the input class; decided from the value only).
+pub fn invalid_kind(v: f64) -> &'static str {
+    match (v < 0.0, v > 65535.0, v.fract() != 0.0) {
+        (true, _, false) => "negative-integer",
+        (true, _, true) => "negative-fraction",
+        (_, true, false) => "integer-above-65535",
+        (_, true, true) => "fraction-above-65535",
+        _ => "fraction-in-range",
+    }
+}
+
+/// (p, categorical columns) of the extreme-code jobs.
+pub const EXTREME_LAYOUTS: [(usize, &[usize]); 4] = [(1, &[0]), (3, &[1]), (3, &[0, 2]), (5, &[1, 3])];
+
+/// Matrix of an extreme-code case: the i-th categorical column holds the code set rotated by i; rows:
+/// pattern 0: n = k (every category once), 1: n = k+1 (first category again in the last row), 2: n = 2k
+/// (pairs); the second categorical column runs through its categories in reversed row order. Plain
+/// columns hold the ordinary plain alphabet (all positive).
+pub fn extreme_rows(p: usize, cats: &[usize], set: &[f64], pattern: usize, seed: u64) -> Rows {
+    let k = set.len();
+    let n = match pattern {
+        0 => k,
+        1 => k + 1,
+        _ => 2 * k,
+    };
+    let mut rows = vec![vec![0.0; p]; n];
+    for r in 0..n {
+        for c in 0..p {
+            rows[r][c] = match cats.iter().position(|x| *x == c) {
+                Some(i) => {
+                    let rr = if i == 0 { r } else { n - 1 - r };
+                    let l = if pattern == 2 { rr / 2 } else { rr % k };
+                    set[(l + i) % k]
+                }
+                None => plain(0, r, c, seed),
+            };
+        }
+    }
+    rows
+}
+
 /// `idx`-th permutation of 0..m in lexicographic order (idx < m!).
 pub fn nth_perm(m: usize, mut idx: usize) -> Vec<usize> {
     let mut fact = vec![1usize; m + 1];
@@ -456,7 +632,16 @@ pub fn check_fit_transform(be: &dyn Backend, rows: &Rows, cats_sorted: &[usize],
     // layouts with a column of >= MANY_K categories are an input class of their own, decided from the
     // input (the original quick space has at most 6 categories per column; the thorough `rgs` jobs with
     // n >= 7 rows reach 7..9 categories and fall into the same class)
-    let class: String = if ks.iter().any(|k| *k >= MANY_K) { format!("{}-many-categories", layout_class(p, cats_sorted, &ks)) } else { layout_class(p, cats_sorted, &ks).to_string() };
+    // layouts whose pass-through columns hold a zero, |v| < 1e-6 or |v| > 1e30 (never the case in the
+    // ordinary plain alphabet) are an input class of their own as well
+    let extreme_pt = has_extreme_pass_through(rows, cats_sorted);
+    let class: String = if ks.iter().any(|k| *k >= MANY_K) {
+        format!("{}-many-categories", layout_class(p, cats_sorted, &ks))
+    } else if extreme_pt {
+        format!("{}-extreme-pass-through-values", layout_class(p, cats_sorted, &ks))
+    } else {
+        layout_class(p, cats_sorted, &ks).to_string()
+    };
     let head = || format!("{} p={} categorical={:?} (given as {:?}) k={:?} x={}", be.name(), p, cats_sorted, given, ks, fmt_rows(rows));
     let enc = match guarded_fit(be, rows, given) {
         FitOutcome::Panic(pi) => {
@@ -518,10 +703,16 @@ pub fn check_fit_transform(be: &dyn Backend, rows: &Rows, cats_sorted: &[usize],
             None => format!("the unchanged plain input column {}", j),
             Some(v) => format!("the indicator of category {} of input column {}", v, j),
         };
+        // in the extreme-pass-through class a wrong pass-through cell is a clause of its own, named
+        // after the kind of value that should have been copied
+        let clause = match (extreme_pt, cat) {
+            (true, None) => format!("pass-through-value-changed:{}", pt_kind(be.is_f32(), exp.rows[r][q])),
+            _ => "cells".to_string(),
+        };
         mc::violation(
-            format!("onehot.transform:{}:cells", class),
+            format!("onehot.transform:{}:{}", class, clause),
             format!(
-                "{}: output column {} should be {}; row {} holds {} instead of {} (wrong output columns {:?}); expected {} observed {}",
+                "{}: output column {} should be {}; row {} holds {:?} instead of {:?} (wrong output columns {:?}); expected {} observed {}",
                 head(),
                 q,
                 role,
